@@ -823,12 +823,25 @@ Lemma clear_matching_skipn name pid l r : skipn r (clear_matching name pid l) = 
 Proof. unfold clear_matching. apply skipn_map. Qed.
 
 (* the decision of a restart never panics, and if it goes to mode 2 the range has an enabled spec *)
+Lemma arfo_restartI_afo k s name pid reason now :
+  k_kind k = AFO -> restartI s = 0%nat ->
+  restartI (fst (arfo_childTerminated k s name pid reason now)) = 0%nat.
+Proof.
+  intros Hk H0. unfold arfo_childTerminated. rewrite Hk.
+  cbn [set_wait set_specs specs wait mode restartI shut sreason restarts pids]. rewrite H0.
+  unfold no_restart, enter_shutdown, childrenForTermination.
+  repeat (destr_match; cbn [fst specs set_specs set_restarts set_wait set_shut set_mode set_sreason set_restartI
+                             mode restartI wait]);
+    try reflexivity; try assumption.
+  all: match goal with H : Nat.ltb _ 0 = true |- _ => apply Nat.ltb_lt in H; lia end.
+Qed.
+
 Lemma arfo_terminated_ok k s name pid reason now :
-  is_arfo k = true -> Inv2 s ->
+  is_arfo k = true -> (k_kind k = AFO -> restartI s = 0%nat) -> Inv2 s ->
   snd (arfo_childTerminated k s name pid reason now) <> RPanic /\
   Inv2 (fst (arfo_childTerminated k s name pid reason now)).
 Proof.
-  intros Hk Hinv.
+  intros Hk HR Hinv.
   destruct (mode s =? 3) eqn:Hm3.
   { (* shutting down *)
     unfold arfo_childTerminated. cbn [set_wait mode]. rewrite Hm3.
@@ -891,8 +904,9 @@ Proof.
                else set_restarts s1 rs) in *.
     (* the exited spec is enabled, at position j, and j is inside the range *)
     assert (Hrange : In sp (skipn (restartI s3) (specs s3)) \/ (restartI s3 <= j)%nat /\ True).
-    { right. split; [|exact I]. subst s3. destruct (k_kind k); cbn [restartI set_restartI set_restarts s1]; try lia.
-      all: unfold is_arfo in Hk; try discriminate. }
+    { right. split; [|exact I]. subst s3. unfold is_arfo in Hk.
+      destruct (k_kind k) eqn:Ek; try discriminate; cbn [restartI set_restartI set_restarts]; [|lia].
+      subst s1. cbn [restartI set_specs set_wait]. rewrite (HR eq_refl). lia. }
     assert (Hin : In sp (skipn (restartI s3) (specs s3))).
     { destruct Hrange as [H|[Hle _]]; [exact H|].
       apply (nth_error_skipn_In _ j); [|exact Hle].
@@ -905,4 +919,315 @@ Proof.
     + cbn [fst snd]; split; [discriminate|]. intros _.
       unfold childrenForTermination in Ec. inversion Ec; subst.
       unfold range_has_enabled. cbn [specs restartI set_wait set_mode]. exact Hr3.
+Qed.
+
+Lemma update_nth_In_dis i pid l r c :
+  In c (skipn r l) ->
+  exists c', In c' (skipn r (update_nth i (fun x => with_pid x pid) l)) /\ c_dis c' = c_dis c.
+Proof.
+  revert i r. induction l as [|a l IH]; intros i r H; [destruct r; contradiction|].
+  destruct r as [|r].
+  - cbn [skipn] in *. destruct i as [|i]; cbn [update_nth].
+    + destruct H as [<-|H]; [exists (with_pid a pid); cbn [In]; auto | exists c; cbn [In]; auto].
+    + destruct H as [<-|H]; [exists a; cbn [In]; auto|].
+      destruct (IH i 0%nat) as [c' [Hc' Hd]]; [exact H|]. exists c'. cbn [skipn] in Hc'. cbn [In]. auto.
+  - cbn [skipn] in H. destruct i as [|i]; cbn [update_nth skipn]; [exists c; auto|]. apply IH. exact H.
+Qed.
+
+Definition InvA (k : config) (s : state) : Prop := Inv2 s /\ (k_kind k = AFO -> restartI s = 0%nat).
+
+(* one valid call on an ARFO machine: no panic, and the invariant is kept *)
+Lemma arfo_call_ok k s c :
+  is_arfo k = true -> InvA k s -> valid_call s c ->
+  snd (apply_call k s c) <> RPanic /\ InvA k (fst (apply_call k s c)).
+Proof.
+  intros Hk [H2 HR] Hv. unfold is_arfo in Hk. unfold InvA.
+  assert (Ha : is_arfo k = true) by (unfold is_arfo; exact Hk).
+  destruct c as [i name pid|name pid reason now|name|name sg|name|name|d]; cbn [apply_call].
+  - (* childStarted *)
+    destruct Hv as [sp [Hn Hname]].
+    unfold childStarted. replace (match k_kind k with SOFO => _ | _ => ofo_childStarted (is_arfo k) s i name pid end)
+      with (ofo_childStarted true s i name pid) by (rewrite Ha; destruct (k_kind k); try discriminate; reflexivity).
+    unfold ofo_childStarted. rewrite Hn, Hname, Z.eqb_refl. cbn [negb].
+    set (s1 := set_specs s (update_nth i (fun c => with_pid c pid) (specs s))).
+    assert (H1 : mode s1 = 2 -> range_has_enabled s1).
+    { intros Hm. destruct (H2 Hm) as [c [Hc Hd]]. subst s1. unfold range_has_enabled. cbn [specs restartI set_specs].
+      destruct (update_nth_In_dis i pid _ _ _ Hc) as [c' [? ?]]. exists c'. split; [assumption|congruence]. }
+    repeat destr_match; cbn [fst snd]; (split; [discriminate|]); (split; [|exact HR]); intros Hm;
+      try (exact (H1 Hm)); cbn in Hm; lia.
+  - (* childTerminated *)
+    unfold childTerminated.
+    replace (match k_kind k with OFO => _ | SOFO => _ | _ => arfo_childTerminated k s name pid reason now end)
+      with (arfo_childTerminated k s name pid reason now) by (destruct (k_kind k); try discriminate; reflexivity).
+    destruct (arfo_terminated_ok k s name pid reason now Ha HR H2) as [Hp Hi]. split; [exact Hp|].
+    split; [exact Hi|]. intros Hkk.
+    (* restartI: AFO never moves it away from 0, RFO has no constraint *)
+    apply arfo_restartI_afo; [exact Hkk | exact (HR Hkk)].
+  - (* childSpec: the state is not changed *)
+    unfold childSpec. destruct (k_kind k); try discriminate; unfold ofo_childSpec;
+      repeat destr_match; cbn [fst snd]; (split; [discriminate|split; assumption]).
+  - (* childAddSpec: only in mode 0 *)
+    unfold childAddSpec. destruct (k_kind k) eqn:Ek; try discriminate; unfold ofo_childAddSpec;
+      repeat destr_match; cbn [fst snd]; (split; [discriminate|]); (split; [|exact HR]); try exact H2;
+      intros Hm; cbn [mode set_specs] in Hm;
+      match goal with H : negb (mode s =? 0) = false |- _ =>
+        apply negb_false_iff, Z.eqb_eq in H; lia end.
+  - (* childEnable *)
+    unfold childEnable. rewrite Ha. destruct (k_kind k) eqn:Ek; try discriminate; unfold ofo_childEnable;
+      cbn [andb]; repeat destr_match; cbn [fst snd]; (split; [discriminate|]); (split; [|exact HR]); try exact H2;
+      intros Hm; cbn [mode set_specs] in Hm;
+      match goal with H : negb (mode s =? 0) = false |- _ =>
+        apply negb_false_iff, Z.eqb_eq in H; lia end.
+  - (* childDisable *)
+    unfold childDisable. rewrite Ha. destruct (k_kind k) eqn:Ek; try discriminate; unfold ofo_childDisable;
+      cbn [andb]; repeat destr_match; cbn [fst snd]; (split; [discriminate|]); (split; [|exact HR]); try exact H2;
+      intros Hm; cbn [mode set_specs set_wait] in Hm;
+      match goal with H : negb (mode s =? 0) = false |- _ =>
+        apply negb_false_iff, Z.eqb_eq in H; lia end.
+  - (* shift *)
+    cbn [fst snd]. split; [discriminate|]. split; [exact H2 | exact HR].
+Qed.
+
+(* the statement over all histories *)
+Theorem arfo_panic_unreachable k cs s c :
+  is_arfo k = true -> cs <> [] -> reachable k cs s -> valid_call s c ->
+  snd (apply_call k s c) <> RPanic.
+Proof.
+  intros Hk Hcs Hr Hv.
+  assert (Hinv : InvA k s).
+  { clear Hv c. induction Hr as [|s c Hr IH Hv].
+    - unfold init, is_arfo in *. destruct (k_kind k); try discriminate.
+      + destruct (mk_specs cs 0) eqn:E; cbn [fst]; (split; [intros Hm; cbn in Hm; lia | reflexivity]).
+      + destruct (mk_specs cs 0) eqn:E; cbn [fst]; (split; [intros Hm; cbn in Hm; lia | reflexivity]).
+    - apply (arfo_call_ok k s c Hk IH Hv). }
+  apply (arfo_call_ok k s c Hk Hinv Hv).
+Qed.
+
+(* ==== a disabled child stays down: NO machine call on ANY state ever answers the start of a disabled spec ======= *)
+Lemma cfs_enabled l c : cfs l = Some c -> c_dis c = false /\ c_pid c = 0.
+Proof.
+  induction l as [|x l IH]; cbn [cfs]; [discriminate|].
+  destruct (c_dis x) eqn:Ed; [exact IH|]. destruct (c_pid x =? 0) eqn:Ep; cbn [negb]; [|discriminate].
+  intros H; inversion H; subst. apply Z.eqb_eq in Ep. auto.
+Qed.
+
+Lemma next_to_start_enabled l i c : next_to_start l i = Some c -> c_dis c = false.
+Proof. intros H. destruct (next_to_start_some _ _ _ H) as [? [? [? [? [? [? [? [? [? ?]]]]]]]]]. assumption. Qed.
+
+Ltac start_enabled :=
+  match goal with
+  | H : (_, RAct (StartChild ?y)) = (_, RAct (StartChild ?x)) |- _ => inversion H; subst; clear H
+  | H : (_, _) = (_, RAct (StartChild _)) |- _ => try discriminate H
+  end.
+
+Theorem disabled_stays_down k s c s' x :
+  apply_call k s c = (s', RAct (StartChild x)) -> c_dis x = false.
+Proof.
+  destruct c as [i name pid|name pid reason now|name|name sg|name|name|d]; cbn [apply_call].
+  - unfold childStarted, sofo_childStarted, ofo_childStarted.
+    repeat destr_match; intros H; try discriminate H; inversion H; subst;
+      eapply next_to_start_enabled; eassumption.
+  - unfold childTerminated, ofo_childTerminated, arfo_childTerminated, sofo_childTerminated,
+      no_restart, enter_shutdown, childrenForTermination, childForStart.
+    repeat destr_match; intros H; try discriminate H; inversion H; subst;
+      try (match goal with E : cfs _ = Some _ |- _ => apply cfs_enabled in E; tauto end);
+      try (match goal with E : c_dis ?c = false |- c_dis ?c = false => exact E end).
+  - unfold childSpec, sofo_childSpec, ofo_childSpec.
+    repeat destr_match; intros H; try discriminate H; inversion H; subst; assumption.
+  - unfold childAddSpec, sofo_childAddSpec, ofo_childAddSpec.
+    repeat destr_match; intros H; try discriminate H; inversion H; subst; reflexivity.
+  - unfold childEnable, sofo_childEnable, ofo_childEnable.
+    repeat destr_match; intros H; try discriminate H; inversion H; subst; reflexivity.
+  - unfold childDisable, sofo_childDisable, ofo_childDisable.
+    repeat destr_match; intros H; try discriminate H.
+  - intros H; discriminate H.
+Qed.
+
+(* ==== Temporary: never restarted, over all histories =============================================================== *)
+Lemma temporary_step k s name pid reason now :
+  k_strat k = Temporary -> mode s <> 2 ->
+  (forall x, snd (childTerminated k s name pid reason now) <> RAct (StartChild x)) /\
+  mode (fst (childTerminated k s name pid reason now)) <> 2.
+Proof.
+  intros Hk Hm.
+  unfold childTerminated, ofo_childTerminated, arfo_childTerminated, sofo_childTerminated,
+    no_restart, enter_shutdown, strategy_stops. rewrite Hk.
+  cbn [set_wait set_specs set_pids specs wait mode restartI shut sreason restarts pids].
+  destruct (mode s =? 2) eqn:E2; [apply Z.eqb_eq in E2; contradiction|].
+  repeat destr_match; cbn [fst snd mode set_specs set_wait set_shut set_mode set_sreason set_pids];
+    (split; [intros x; discriminate | try exact Hm; try lia]).
+Qed.
+
+Lemma mode_not2_other_calls k s c :
+  (forall n p r t, c <> MTerminated n p r t) -> mode s <> 2 -> mode (fst (apply_call k s c)) <> 2.
+Proof.
+  intros Hc Hm. destruct c as [i name pid|name pid reason now|name|name sg|name|name|d]; cbn [apply_call].
+  - unfold childStarted, sofo_childStarted, ofo_childStarted.
+    repeat destr_match; cbn [fst mode set_specs set_mode set_pids]; try exact Hm; lia.
+  - exfalso. eapply Hc. reflexivity.
+  - unfold childSpec, sofo_childSpec, ofo_childSpec. repeat destr_match; cbn [fst]; exact Hm.
+  - unfold childAddSpec, sofo_childAddSpec, ofo_childAddSpec. repeat destr_match; cbn [fst mode set_specs]; exact Hm.
+  - unfold childEnable, sofo_childEnable, ofo_childEnable. repeat destr_match; cbn [fst mode set_specs]; exact Hm.
+  - unfold childDisable, sofo_childDisable, ofo_childDisable.
+    repeat destr_match; cbn [fst mode set_specs set_wait]; exact Hm.
+  - cbn [fst shiftRestarts set_restarts mode]. exact Hm.
+Qed.
+
+Lemma temporary_mode_never_2 k cs s :
+  k_strat k = Temporary -> reachable k cs s -> mode s <> 2.
+Proof.
+  intros Hk Hr. induction Hr as [|s c Hr IH Hv].
+  - unfold init. repeat destr_match; cbn [fst mode set_mode set_specs empty_state]; lia.
+  - destruct c as [i name pid|name pid reason now|name|name sg|name|name|d];
+      try (apply mode_not2_other_calls; [intros; discriminate | exact IH]).
+    cbn [apply_call]. apply (temporary_step k s name pid reason now Hk IH).
+Qed.
+
+Theorem temporary_never_restarted k cs s name pid reason now x :
+  k_strat k = Temporary -> reachable k cs s ->
+  snd (childTerminated k s name pid reason now) <> RAct (StartChild x).
+Proof.
+  intros Hk Hr. apply (temporary_step k s name pid reason now Hk (temporary_mode_never_2 k cs s Hk Hr)).
+Qed.
+
+(* Transient, normal/shutdown reason: same statement for every exit with such a reason that arrives while no
+   restart is in progress (mode <> 2) *)
+Theorem transient_normal_never_restarted k s name pid reason now x :
+  k_strat k = Transient -> is_normal reason = true -> mode s <> 2 ->
+  snd (childTerminated k s name pid reason now) <> RAct (StartChild x).
+Proof.
+  intros Hk Hn Hm.
+  unfold childTerminated, ofo_childTerminated, arfo_childTerminated, sofo_childTerminated,
+    no_restart, enter_shutdown, strategy_stops. rewrite Hk, Hn.
+  cbn [set_wait set_specs set_pids specs wait mode restartI shut sreason restarts pids].
+  destruct (mode s =? 2) eqn:E2; [apply Z.eqb_eq in E2; contradiction|].
+  repeat destr_match; cbn [fst snd]; discriminate.
+Qed.
+
+(* ==== once shutting down, the supervisor terminates with the stored reason as soon as every awaited child is
+   gone, whatever the order of the exits and whatever else arrives meanwhile ======================================= *)
+Definition exit_msg := (Z * Z * Z * Z)%type.    (* name, pid, reason, now *)
+Definition em_pid (e : exit_msg) : Z := snd (fst (fst e)).
+Fixpoint drain (k : config) (s : state) (l : list exit_msg) : list result :=
+  match l with
+  | [] => []
+  | (name, pid, reason, now) :: tl =>
+      let '(s', r) := childTerminated k s name pid reason now in r :: drain k s' tl
+  end.
+
+Definition shutting_any (k : config) (s : state) : bool :=
+  match k_kind k with SOFO => shut s | _ => shutting k s end.
+
+Lemma shutdown_step k s name pid reason now :
+  shutting_any k s = true ->
+  let '(s', r) := childTerminated k s name pid reason now in
+  wait s' = zremove pid (wait s) /\ sreason s' = sreason s /\ shutting_any k s' = true /\
+  r = RAct (if is_nil (zremove pid (wait s)) then Terminate (sreason s) else TerminateChildren [] 0).
+Proof.
+  intros Hs. unfold shutting_any in *. destruct (k_kind k) eqn:Ek.
+  1-3: rewrite (shutdown_drains k s name pid reason now Hs) by congruence; cbn [wait sreason set_wait];
+       (repeat split; auto); unfold shutting, is_arfo in *; rewrite Ek in *; exact Hs.
+  unfold childTerminated. rewrite Ek. rewrite (sofo_shutdown_drains k s name pid reason now Hs).
+  cbn [wait sreason set_wait set_pids shut]. auto.
+Qed.
+
+Theorem shutdown_terminates k : forall l s,
+  shutting_any k s = true -> l <> [] ->
+  (forall p, In p (wait s) -> In p (map em_pid l)) ->
+  exists pre, firstn (S (length pre)) (drain k s l) = pre ++ [RAct (Terminate (sreason s))] /\
+              Forall (fun r => r = RAct (TerminateChildren [] 0)) pre.
+Proof.
+  induction l as [|[[[name pid] reason] now] l IH]; intros s Hs Hne Hcov; [congruence|].
+  cbn [drain]. pose proof (shutdown_step k s name pid reason now Hs) as Hst.
+  destruct (childTerminated k s name pid reason now) as [s' r]. destruct Hst as [Hw [Hr [Hs' Hres]]].
+  destruct (zremove pid (wait s)) as [|q w] eqn:Ew; cbn [is_nil] in Hres.
+  - exists []. cbn [length firstn app]. split; [subst r; reflexivity | constructor].
+  - assert (Hcov' : forall p, In p (wait s') -> In p (map em_pid l)).
+    { intros p Hp. rewrite Hw in Hp. rewrite <- Ew in Hp.
+      pose proof (zremove_subset pid p (wait s) Hp) as Hsub. specialize (Hcov p Hsub).
+      cbn [map In em_pid fst snd] in Hcov. destruct Hcov as [Heq|Hin]; [|exact Hin].
+      exfalso. subst p. exact (zremove_not_in pid (wait s) Hp). }
+    assert (Hne' : l <> []).
+    { intros ->. specialize (Hcov' q). rewrite Hw in Hcov'. cbn in Hcov'. apply Hcov'. auto. }
+    destruct (IH s' Hs' Hne' Hcov') as [pre [Hf Hall]].
+    exists (r :: pre). split.
+    + change (firstn (S (length (r :: pre))) (r :: drain k s' l)) with (r :: firstn (S (length pre)) (drain k s' l)).
+      rewrite Hf, Hr. reflexivity.
+    + constructor; [subst r; reflexivity | exact Hall].
+Qed.
+
+(* ==== C10 (supervisor part): what an orderly termination implies ===================================================== *)
+Lemma nil_run_running name pid l : is_nil (running_others name pid l) = true -> running (clear_matching name pid l) = [].
+Proof. intros H. rewrite running_others_clear. apply is_nil_true. exact H. Qed.
+
+Theorem terminate_means_none_running k s name pid reason now s' r :
+  k_kind k <> SOFO -> shutting k s = false ->
+  childTerminated k s name pid reason now = (s', RAct (Terminate r)) ->
+  running (specs s') = [].
+Proof.
+  intros Hk Hs. unfold childTerminated, shutting, is_arfo in *.
+  destruct (k_kind k) eqn:Ek; try congruence;
+    unfold ofo_childTerminated, arfo_childTerminated, no_restart, enter_shutdown, childrenForTermination;
+    cbn [set_wait set_specs specs wait mode restartI shut sreason restarts pids]; rewrite Hs;
+    repeat destr_match; intros H; try discriminate H; inversion H; subst;
+    cbn [specs set_specs set_wait set_restarts];
+    try (apply nil_run_running; assumption);
+    try (apply nil_run_running;
+         match goal with E : (_ && _) = true |- _ => apply andb_true_iff in E; tauto end).
+Qed.
+
+Theorem shutdown_covers_all k s name pid reason now s' t r :
+  k_kind k <> SOFO -> shutting k s = false ->
+  childTerminated k s name pid reason now = (s', RAct (TerminateChildren t r)) ->
+  shutting k s' = true ->
+  t = running (specs s') /\ wait s' = zset t.
+Proof.
+  intros Hk Hs. unfold childTerminated, shutting, is_arfo in *.
+  destruct (k_kind k) eqn:Ek; try congruence;
+    unfold ofo_childTerminated, arfo_childTerminated, no_restart, enter_shutdown, childrenForTermination;
+    cbn [set_wait set_specs specs wait mode restartI shut sreason restarts pids]; rewrite Hs;
+    repeat destr_match; intros H; try discriminate H; inversion H; subst;
+    cbn [specs set_specs set_wait set_restarts set_shut set_mode set_sreason set_restartI shut mode wait];
+    intros Hsh; try discriminate Hsh;
+    try (rewrite running_others_clear; split; reflexivity);
+    try (exfalso; congruence).
+Qed.
+
+Theorem sofo_shutdown_covers_all k s name pid reason now s' t r :
+  shut s = false ->
+  sofo_childTerminated k s name pid reason now = (s', RAct (TerminateChildren t r)) ->
+  shut s' = true -> t = map fst (pids s') /\ (forall p, In p t -> In p (wait s')).
+Proof.
+  intros Hs. unfold sofo_childTerminated.
+  cbn [set_wait set_pids specs wait mode restartI shut sreason restarts pids]. rewrite Hs.
+  repeat destr_match; intros H; try discriminate H; inversion H; subst;
+    cbn [pids wait shut set_shut set_wait set_restarts set_pids]; intros _;
+    (split; [reflexivity|]); intros p Hp; apply zunion_in; auto.
+Qed.
+
+Theorem no_start_in_shutdown k s c s' x :
+  k_kind k <> OFO -> shutting_any k s = true ->
+  apply_call k s c <> (s', RAct (StartChild x)).
+Proof.
+  intros Hk Hs. unfold shutting_any, shutting, is_arfo in Hs.
+  destruct (k_kind k) eqn:Ek; try congruence.
+  1-2: apply Z.eqb_eq in Hs;
+       destruct c as [i name pid|name pid reason now|name|name sg|name|name|d]; cbn [apply_call];
+       unfold childStarted, childTerminated, childSpec, childAddSpec, childEnable, childDisable, is_arfo; try rewrite Ek;
+       unfold ofo_childStarted, arfo_childTerminated, ofo_childSpec, ofo_childAddSpec, ofo_childEnable, ofo_childDisable;
+       cbn [set_wait mode]; try rewrite Hs; cbn [Z.eqb Pos.eqb negb andb];
+       repeat destr_match; discriminate.
+  destruct c as [i name pid|name pid reason now|name|name sg|name|name|d]; cbn [apply_call];
+    unfold childStarted, childTerminated, childSpec, childAddSpec, childEnable, childDisable; try rewrite Ek;
+    unfold sofo_childStarted, sofo_childTerminated, sofo_childSpec, sofo_childAddSpec, sofo_childEnable, sofo_childDisable;
+    cbn [set_wait set_pids shut]; try rewrite Hs; repeat destr_match; discriminate.
+Qed.
+
+Definition ofo_witness_cfg := mk_config OFO Transient false true 3 5.
+Definition ofo_witness_state := mk_state [mk_cspec 1 0 false false 0; mk_cspec 2 1002 false false 1] 0 [1002] 0 true 10 [] [].
+Theorem ofo_start_during_shutdown_refuted :
+  exists k s name x, k_kind k = OFO /\ shut s = true /\ snd (childSpec k s name) = RAct (StartChild x).
+Proof.
+  exists ofo_witness_cfg, ofo_witness_state, 1, (mk_cspec 1 0 false false 0).
+  vm_compute. auto.
 Qed.
